@@ -73,6 +73,7 @@ func (s *segmentMetadata) getIndex(vecIdx VectorIndex, txtIdx TextIndex, metaIdx
 		return s.cachedIndex, nil
 	}
 
+	verifHook("load.begin", s.id)
 	// Create new hybrid index
 	idx := NewHybridSearchIndex(vecIdx, txtIdx, metaIdx)
 
@@ -153,6 +154,7 @@ func (s *segmentMetadata) getIndex(vecIdx VectorIndex, txtIdx TextIndex, metaIdx
 	// Deserialize the index
 	if readerFrom, ok := idx.(io.ReaderFrom); ok {
 		if _, err := readerFrom.ReadFrom(combinedReader); err != nil {
+			verifHook("load.failed", s.id)
 			return nil, fmt.Errorf("failed to deserialize segment: %w", err)
 		}
 	} else {
@@ -161,6 +163,7 @@ func (s *segmentMetadata) getIndex(vecIdx VectorIndex, txtIdx TextIndex, metaIdx
 
 	// Cache the loaded index
 	s.cachedIndex = idx
+	verifHook("load.end", s.id)
 
 	return idx, nil
 }
